@@ -253,13 +253,13 @@ func (rb *replayBuilder) binFor(pkg string) (string, string) {
 	for _, shared := range []string{"verifrt", "verifenv"} {
 		rtFiles, _ := filepath.Glob(filepath.Join(verifDir(), shared, "*.go"))
 		for _, f := range rtFiles {
-			repl["/repo/"+shared+"/"+filepath.Base(f)] = f
+			repl[repoRoot+"/"+shared+"/"+filepath.Base(f)] = f
 		}
 	}
 	for _, f := range spec.Files {
-		repl[filepath.Join("/repo", f.Pkg, "zz_verif_"+filepath.Base(f.Src))] = filepath.Join(specDir, f.Src)
+		repl[filepath.Join(repoRoot, f.Pkg, "zz_verif_"+filepath.Base(f.Src))] = filepath.Join(specDir, f.Src)
 	}
-	pkgName, err := goPackageName(filepath.Join("/repo", pkg))
+	pkgName, err := goPackageName(filepath.Join(repoRoot, pkg))
 	if err != nil {
 		for _, f := range spec.Files {
 			if f.Pkg == pkg {
@@ -310,13 +310,13 @@ func (rb *replayBuilder) binFor(pkg string) (string, string) {
 	os.MkdirAll(dir, 0o755)
 	tf := filepath.Join(dir, "replay_test.go")
 	os.WriteFile(tf, []byte(sb.String()), 0o644)
-	repl[filepath.Join("/repo", pkg, "zz_verif_replay_test.go")] = tf
+	repl[filepath.Join(repoRoot, pkg, "zz_verif_replay_test.go")] = tf
 	ovf := filepath.Join(dir, "overlay.json")
 	writeJSON(ovf, map[string]interface{}{"Replace": repl})
 	bin := filepath.Join(dir, "replay.test")
 	var buf bytes.Buffer
 	build := exec.Command("go", "test", "-c", "-tags", "verif", "-overlay", ovf, "-vet=off", "-o", bin, "./"+pkg)
-	build.Dir = "/repo"
+	build.Dir = repoRoot
 	build.Env = replayEnv("")
 	build.Stdout = &buf
 	build.Stderr = &buf
@@ -340,9 +340,9 @@ func (rb *replayBuilder) run(hs HarnessSpec, rfile string) ([]string, string) {
 	}
 	var buf bytes.Buffer
 	cmd := exec.Command(bin, "-test.run", "^TestVerifReplay_"+hs.Func+"$", "-test.v", "-test.timeout", "20m")
-	cmd.Dir = "/repo"
-	if st, e2 := os.Stat(filepath.Join("/repo", hs.Pkg)); e2 == nil && st.IsDir() {
-		cmd.Dir = filepath.Join("/repo", hs.Pkg)
+	cmd.Dir = repoRoot
+	if st, e2 := os.Stat(filepath.Join(repoRoot, hs.Pkg)); e2 == nil && st.IsDir() {
+		cmd.Dir = filepath.Join(repoRoot, hs.Pkg)
 	}
 	cmd.Env = replayEnv(rfile)
 	cmd.Stdout = &buf
